@@ -797,6 +797,12 @@ func TestVerifC20(t *testing.T) {
 		default:
 			login, loginTag = r.Pick("x", local+"x", local[:4], "zzzzzzzzzzzzzzzzzzzzzzzzzzzzzzzzzzzzz"), "odd"
 		}
+		if wire && login != local {
+			// the forwarded UserList is not about the wire format of split requests, and its UserBatchUpdate to the
+			// local backend cannot be observed behind the Go router (PATCH users/batch_update is taken by the
+			// users/{uuid} route registered before it; the real local backend is Rails)
+			login, loginTag = "", "none"
+		}
 		conn.cluster.Login.LoginCluster = login
 		bl.updFail = r.Chance(1, 6)
 		// ---- "a failed request fails now": one involved cluster is certain to fail (error answer to its first
@@ -921,9 +927,9 @@ func TestVerifC20(t *testing.T) {
 		updDesc := append([][]string(nil), bl.updates...)
 		bl.mtx.Unlock()
 		sort.Strings(exist)
-		term := fmt.Sprintf("{| c_cfg := Cf %s %s %s; c_login := %s; c_kind := %s; c_opts := %s; c_exist := %s;\n   c_logs := %s;\n   c_upd := %s; o_fate := %s; o_code := %s; o_items := %s |}",
+		term := fmt.Sprintf("{| c_cfg := Cf %s %s %s; c_login := %s; c_kind := %s; c_opts := %s; c_exist := %s;\n   c_logs := %s;\n   c_lax := %s; c_upd := %s; o_fate := %s; o_code := %s; o_items := %s |}",
 			gStr(local), gStrs(remotes), gZ(int64(max)), gStr(login), c20Kinds[kind], c20Opts(opts), gStrs(exist), gList(logs),
-			gList(upd), gN(int64(fate)), gN(int64(code)), gList(oi))
+			gBool(wire), gList(upd), gN(int64(fate)), gN(int64(code)), gList(oi))
 		fj := []interface{}{}
 		for _, f := range filters {
 			fj = append(fj, []interface{}{f.Attr, f.Operator, fmt.Sprintf("%T %v", f.Operand, f.Operand)})
